@@ -57,6 +57,13 @@ def _all_sequences():
     return seqs          # 65 ordered sequences of distinct patterns
 
 
+def _styles(seed, run, case):
+    st = Stream(seed, ID, run, 'constraint_style')
+    case['s2_style'] = st.wchoice([('function', 4), ('partial', 2), ('callable', 1.5), ('method', 1), ('lambda', 1.5)])
+    if st.chance(0.2):
+        case['k3_style'] = 'partial'
+
+
 def generate(seed, run, tier):
     nseq = 65
     if run < 4 * nseq:
@@ -77,7 +84,9 @@ def generate(seed, run, tier):
         if t == 'Conv2d':
             ops.append({'op': 'pit', 'net': run % 4, 'default_probe': False})
         ops.append({'op': 'final_cross_check'})
-        return {'default': default, 'ops': ops, 'systematic': True}
+        c = {'default': default, 'ops': ops, 'systematic': True}
+        _styles(seed, run, c)
+        return c
     rs = Stream(seed, ID, run, 'schedule')
     sw = Stream(seed, ID, run, 'swarm')
     n_types = sw.randint(1, 2)
@@ -141,7 +150,9 @@ def generate(seed, run, tier):
         ops.append({'op': 'builtin_permuted', 'spec': rs.choice(BUILTINS), 'perm_seed': rs.randint(0, 10**6),
                     'net': rs.randint(0, 3)})
     ops.append({'op': 'final_cross_check'})
-    return {'default': sw.choice(['zero', 'fail']), 'ops': ops}
+    c = {'default': sw.choice(['zero', 'fail']), 'ops': ops}
+    _styles(seed, run, c)
+    return c
 
 
 def sample_view(case):
@@ -217,7 +228,41 @@ def execute(case):
         s = spec['stride']
         s = s if isinstance(s, (tuple, list)) else (s,)
         return all(si == 2 for si in s)
-    cmap = {'U': None, 'DW': P.conv_dw_constraint, 'K3': P.conv_3_constraint, 'S2': s2_constraint}
+
+    # the user's constraint may be any callable: a plain function, a lambda, a functools.partial of a parametrised
+    # predicate, an instance of a class with __call__, a bound method (the last three have no __name__/__qualname__)
+    def stride_is(spec, value):
+        s = spec['stride']
+        s = s if isinstance(s, (tuple, list)) else (s,)
+        return all(si == value for si in s)
+
+    class StrideIs:
+        def __init__(self, value):
+            self.value = value
+
+        def __call__(self, spec):
+            return stride_is(spec, self.value)
+
+        def check(self, spec):
+            return stride_is(spec, self.value)
+    style = case.get('s2_style', 'function')
+    if style == 'partial':
+        import functools
+        s2c = functools.partial(stride_is, value=2)
+    elif style == 'callable':
+        s2c = StrideIs(2)
+    elif style == 'method':
+        s2c = StrideIs(2).check
+    elif style == 'lambda':
+        s2c = lambda spec: stride_is(spec, 2)       # noqa: E731
+    else:
+        s2c = s2_constraint
+    bump_style = 'user_constraint_is_' + style
+    cmap = {'U': None, 'DW': P.conv_dw_constraint, 'K3': P.conv_3_constraint, 'S2': s2c}
+    if case.get('k3_style') == 'partial':
+        # a user's own re-statement of a built-in constraint, again as a nameless callable
+        import functools
+        cmap['K3'] = functools.partial(lambda spec, k: P.conv_3_constraint(spec), k=3)
 
     events, failures, stats = [], [], {}
     cover = {'pattern_set_and_order': set()}
@@ -230,6 +275,7 @@ def execute(case):
 
     if case.get('systematic'):
         bump('systematic_registration_sequences')
+    bump(bump_style)
     cs = CostSpec(shared=True, default_behavior=case['default'])
     fns = {}          # fid -> function
     ident = {}        # id(function) -> label
